@@ -46,11 +46,11 @@ func c23Configs() []*Config {
 	// single bytes, reads and half-closes; the still-open direction A>B must
 	// keep its full window.
 	hc := base
-	hc.Name, hc.WriteBuffers, hc.MaxHeld, hc.Preamble, hc.Depth = "W2-backpressure-one-write-buffer-halfclose", 1, 1, established, 10
+	hc.Name, hc.WriteBuffers, hc.MaxHeld, hc.Preamble, hc.Depth = "W2-backpressure-one-write-buffer-halfclose", 1, 1, established, 12
 	hc.WriteSizesBySide, hc.ReadSizes, hc.Closers, hc.Kinds = [2][]int{{2}, {1}}, []int{2}, [2]bool{false, true}, []string{"closeWrite"}
 	cfgs := []*Config{&scratch, &est, &two, &hc}
 	if vr.Thorough() {
-		scratch.Depth, est.Depth, two.Depth = 11, 9, 7
+		scratch.Depth, est.Depth, two.Depth, hc.Depth = 11, 9, 7, 18
 		w3 := base
 		w3.Name, w3.W, w3.WriteSizes, w3.ReadSizes, w3.MaxBytes, w3.Preamble, w3.Depth = "W3-one-stream-established", 3, []int{0, 1, 4}, []int{0, 1, 4}, 5, established, 7
 		bytewise := base
